@@ -440,7 +440,7 @@ def rule_reader_base(ctx, R="C08/reader-base"):
 
 def run(ctx):
     from rules import preds
-    preds.run(ctx, PROPERTY, ['is_executable', 'dynamic-segment', 'dynamic-section'])   # the opaque predicates these rules lean on, against oracle tables
+    preds.run(ctx, PROPERTY, ['is_executable', 'dynamic-segment', 'dynamic-section', 'zero-id-byte'])   # the opaque predicates these rules lean on, against oracle tables
     rule_module_fields(ctx)
     rule_filter(ctx)
     rule_entry_first(ctx)
